@@ -3,9 +3,11 @@ pub mod c04;
 pub mod c05;
 pub mod c06;
 pub mod c07;
+pub mod c08;
 pub mod c09;
+pub mod c10;
 pub mod c15;
 pub mod c19;
 pub mod c20;
 
-pub const ALL: &[&str] = &["C02", "C04", "C05", "C06", "C07", "C09", "C15", "C19", "C20"];
+pub const ALL: &[&str] = &["C02", "C04", "C05", "C06", "C07", "C08", "C09", "C10", "C15", "C19", "C20"];
